@@ -1456,7 +1456,7 @@ pub fn indent_pairing(cx: &mut Ctx, rule: &str) {
                     cx.fail(rule, &format!("{}/dedent-without-pop/{}", rule, fname), &lx.loc(f), "emit(Dedent) without a preceding indentations.pop");
                 }
                 let il = &indent_local;
-                if emits_indent && !t.contains(&format!("TextRange::new(self.get_pos()-TextSize::new({il}.spaces)-TextSize::new({il}.tabs),self.get_pos(),)")) && !t.contains(&format!("TextRange::new(self.get_pos()-TextSize::new({il}.spaces)-TextSize::new({il}.tabs),self.get_pos())")) {
+                if emits_indent && !t.contains(&format!("TextRange::new(self.get_pos()-TextSize::new({il}.spaces)-TextSize::new({il}.tabs),self.get_pos())")) && !t.contains(&format!("TextRange::new(self.get_pos()-TextSize::new({il}.spaces)-TextSize::new({il}.tabs),self.get_pos())")) {
                     cx.fail(rule, &format!("{}/indent-range", rule), &lx.loc(f), "the Indent range is not tok_pos - spaces - tabs .. tok_pos");
                 }
                 if emits_dedent && !t.contains("TextRange::empty(self.get_pos())") {
